@@ -461,6 +461,12 @@ class NumpyCodegenMapper(CachedMapper[str, Never, []]):
                     stop = (None
                             if are_shape_components_equal(dim, idx.stop)
                             else idx.stop)
+                elif are_shape_components_equal(-1, idx.start):
+                    # A normalized start of -1 means "before the first
+                    # element": the slice is empty. Emitted literally, -1
+                    # would address the last element.
+                    start = 0
+                    stop = 0
                 else:
                     start = (None
                              if are_shape_components_equal(dim-1, idx.start)
